@@ -70,6 +70,7 @@ func registerTimeModels(e *Engine) {
 		} else {
 			x.clockBase = t
 			x.assume(Le(IntC(0), t))
+			x.assume(Le(t, IntC(int64(100*365*24*3600*1e9)))) // the request starts within a century of the clock's epoch
 		}
 		x.clockLast = t
 		x.clocks = append(x.clocks, t)
@@ -93,7 +94,7 @@ func registerTimeModels(e *Engine) {
 		return Eq(x.timeVal(a[0]).NS, x.timeVal(a[1]).NS)
 	}
 	m["(time.Time).IsZero"] = func(x *Exec, fr *frame, a []Value) Value {
-		return Eq(x.timeVal(a[0]).NS, IntC(0))
+		return Eq(x.timeVal(a[0]).NS, zeroTimeNS)
 	}
 	m["(time.Time).Unix"] = func(x *Exec, fr *frame, a []Value) Value {
 		return UFSort("unixsec", SInt, x.timeVal(a[0]).NS)
@@ -106,7 +107,7 @@ func registerTimeModels(e *Engine) {
 		if x.Branch(ok) {
 			return TupleV{&TimeV{NS: ns}, NilIface}
 		}
-		return TupleV{&TimeV{NS: IntC(0)}, x.newError(Concat(StrC("parsing time "), x.term(a[1]), StrC(": cannot parse")), nil)}
+		return TupleV{&TimeV{NS: zeroTimeNS}, x.newError(Concat(StrC("parsing time "), x.term(a[1]), StrC(": cannot parse")), nil)}
 	}
 	m["time.Since"] = func(x *Exec, fr *frame, a []Value) Value {
 		now := m["time.Now"](x, fr, nil).(*TimeV)
